@@ -10,6 +10,7 @@ import Heathcliff.Proofs.C20K
 import Heathcliff.Proofs.C20M
 import Heathcliff.Proofs.C20N
 import Heathcliff.Proofs.C20O
+import Heathcliff.Proofs.GenAppC20
 
 /- Property C20: homomorphic matrix products and convolutions equal plaintext ones, all shapes.
    Property theorems only (proofs are the helper lemmas of Heathcliff/Proofs/C20*.lean). -/
@@ -403,6 +404,61 @@ example : (do
     let Y ← boltCpMultiply h (fun a b => (a + b) % 17) (fun a b => (a * b) % 17) 0 X W
     boltCpDecodeOutputs h 0 Y) = .ok #[27 % 17, 30 % 17, 33 % 17, 61 % 17, 68 % 17, 75 % 17, 95 % 17, 106 % 17, 117 % 17] := by
   decide +kernel
+
+/-! ### translator tie (phase 4h, app mode): the block searches and term lists are REGENERATED from src/app/matmul/cheetah.rs and
+    src/app/conv2d.rs on every run (`Gen/AppFns.lean`, namespace `HC.GenApp`) and proved equal to the hand model -/
+
+/-- `ceil_div` (cheetah.rs): the checked `(a + b - 1) / b` is `ceilDiv` whenever it does not trap -/
+theorem gen_ceil_div_eq {a b : Nat} (hb : 1 ≤ b) (h : a + b < 2^64) : GenApp.mm_ceil_div a b = .ok (ceilDiv a b) :=
+  HC.ga_mm_ceil_div hb h
+/-- `ceil_div` (conv2d.rs, a second copy of the function) -/
+theorem gen_cv_ceil_div_eq {a b : Nat} (hb : 1 ≤ b) (h : a + b < 2^64) : GenApp.cv_ceil_div a b = .ok (ceilDiv a b) :=
+  HC.ga_cv_ceil_div hb h
+
+/-- **`MatmulHelper::new` (no LWE packing), generated = model**: every shape below 2^20 (zero dimensions included: both refuse), every
+    degree, every objective; the struct the code builds is the model's `Helper` (+ the objective) -/
+theorem gen_mm_new_eq : type_of% @HC.ga_mm_new_eq := @HC.ga_mm_new_eq
+/-- ... with LWE packing, at the exact values of the two `f64` expressions (inputs of the generated function) -/
+theorem gen_mm_new_pack_eq : type_of% @HC.ga_mm_new_pack_eq := @HC.ga_mm_new_pack_eq
+/-- **`Conv2dHelper::new`, generated = model** (dimensions ≤ 2^15 — above, the cost products can overflow a word —, non-empty kernel) -/
+theorem gen_cv_new_eq : type_of% @HC.ga_cv_new_eq := @HC.ga_cv_new_eq
+/-- `MatmulHelper::output_terms` / `input_terms`, generated = model -/
+theorem gen_mm_output_terms_eq : type_of% @HC.ga_mm_output_terms_eq := @HC.ga_mm_output_terms_eq
+theorem gen_mm_input_terms_eq : type_of% @HC.ga_mm_input_terms_eq := @HC.ga_mm_input_terms_eq
+
+/-- `Conv2dHelper::output_terms`, generated = model (blocks contain a non-empty kernel, non-zero channel / batch blocks, product fits a word) -/
+theorem gen_cv_output_terms_eq : type_of% @HC.ga_cv_output_terms_eq := @HC.ga_cv_output_terms_eq
+/-- ... for the helper the generated conv2d search returns -/
+theorem gen_cv_terms_of_new : type_of% @HC.ga_cv_terms_of_new := @HC.ga_cv_terms_of_new
+
+/-- `Conv2dHelper::get_total_batch_size`, generated = `CHelper.totalBatch` (the group count `encode_inputs_*` / `decrypt_outputs_*` iterate over) -/
+theorem gen_cv_total_batch_eq : type_of% @HC.ga_cv_total_batch_eq := @HC.ga_cv_total_batch_eq
+
+/-- **composed with `block_search_sound`**: the GENERATED search returns admissible blocks for every admissible shape -/
+theorem gen_mm_new_sound : type_of% @HC.ga_mm_new_sound := @HC.ga_mm_new_sound
+theorem gen_mm_new_pack_sound : type_of% @HC.ga_mm_new_pack_sound := @HC.ga_mm_new_pack_sound
+theorem gen_cv_new_sound : type_of% @HC.ga_cv_new_sound := @HC.ga_cv_new_sound
+/-- **one statement from source to mathematics**: generated search → encode → multiply-accumulate → decode = `x · w` -/
+theorem gen_cheetah_matmul_search : type_of% @HC.ga_cheetah_matmul_search := @HC.ga_cheetah_matmul_search
+/-- ... and for the convolution: generated search → … = valid cross-correlation -/
+theorem gen_conv2d_search : type_of% @HC.ga_conv2d_search := @HC.ga_conv2d_search
+/-- the term lists of the helper the generated search returns (composed with `terms_transport`) -/
+theorem gen_mm_terms_of_new : type_of% @HC.ga_mm_terms_of_new := @HC.ga_mm_terms_of_new
+
+/-! non-vacuity of the ties: the generated functions run on concrete shapes and return what the model returns -/
+example : (GenApp.mm_new 3 4 2 8 .cipherPlain false 0 0).map ga_toHelper = .ok ⟨3, 4, 2, 3, 1, 2, 8, false⟩ := by rfl
+example : (GenApp.mm_new 4 3 2 32 .cipherPlain true (packExp 32) 2).map ga_toHelper = .ok ⟨4, 3, 2, 4, 2, 2, 32, true⟩ := by rfl
+example : (GenApp.cv_new 1 1 1 40 4 3 3 64 .cipherPlain).map ga_toCHelper = .ok ⟨⟨1, 1, 1, 40, 4, 3, 3⟩, 1, 16, 4, 1, 1, 64⟩ := by
+  rfl
+example : GenApp.mm_output_terms ⟨3, 4, 2, 3, 1, 2, 8, .cipherPlain, false⟩ = .ok [0, 1, 2, 3, 4, 5] := by rfl
+example : GenApp.cv_output_terms ⟨1, 1, 1, 4, 4, 3, 3, 16, 1, 1, 1, 4, 4, .cipherPlain⟩ = .ok [10, 11, 14, 15] := by rfl
+example : GenApp.cv_total_batch ⟨1, 1, 1, 40, 4, 3, 3, 64, 1, 1, 1, 16, 4, .cipherPlain⟩ = .ok 3 := by rfl
+example (x w : Nat → ℤ) := gen_cheetah_matmul_search 3 4 2 8 .cipherPlain 0 0 (by decide) (by decide) (by decide) (by decide)
+  (by decide) x w
+example (x w : Nat → ℤ) := gen_conv2d_search ⟨2, 3, 2, 6, 5, 3, 2⟩ 64 .cipherPlain (by decide) (by decide) (by decide) (by decide)
+  (by decide) (by decide) (by decide) (by decide) (by decide) x w
+example := gen_mm_new_pack_sound 4 3 2 32 .cipherPlain (packExp 32) 2 (by decide) (by decide) (by decide) (by decide) (by decide)
+  (by decide) rfl (by decide)
 
 /-! non-vacuity: concrete shapes satisfy the hypotheses and the searches return the blocks the code returns -/
 example : mmSearch 8 3 4 2 .cipherPlain = ⟨3, 1, 2, 5⟩ := by decide
